@@ -26,6 +26,7 @@ CONSTANTS DirOf,        \* [file id -> directory name]
           MaxArgs,
           Commands,     \* subset of {"check", "echo", "tokenize"}
           Encodings,    \* set of encoding names
+          Verbosities,  \* set of naturals: how often -v is given (logging to a file; nothing below may depend on it)
           Emit
 
 Files == DOMAIN ClassOf
@@ -33,20 +34,21 @@ Paths == Files \cup DirNames \cup {"?missing"}
 Entries(d) == {f \in Files : DirOf[f] = d} \cup (IF d \in BadDirs THEN {"?sub:" \o d} ELSE {})
 IsBadEntry(e) == e \notin Files
 
-VARIABLES cmd, args, enc,      \* the invocation; enc: [Files -> Encodings]
+VARIABLES cmd, args, enc, verb, \* the invocation; enc: [Files -> Encodings]; verb: number of -v flags
           phase,               \* "Start" | "Enumerated" | "Read" | "Done"
           entries,             \* set of directory entries / files named by the arguments
           sources,             \* set of files read and decoded
           diags,               \* set of <<code, file or path>> emitted on stderr
           okLine,              \* OK printed on stdout
           exit
-vars == <<cmd, args, enc, phase, entries, sources, diags, okLine, exit>>
+vars == <<cmd, args, enc, verb, phase, entries, sources, diags, okLine, exit>>
 
 ArgSeqs == UNION {[1..n -> Paths] : n \in 0..MaxArgs}
 
 Init == /\ cmd \in Commands
         /\ args \in ArgSeqs
         /\ enc \in [Files -> Encodings]
+        /\ verb \in Verbosities
         /\ phase = "Start" /\ entries = {} /\ sources = {} /\ diags = {} /\ okLine = FALSE /\ exit = -1
 
 Args == {args[i] : i \in 1..Len(args)}
@@ -61,7 +63,7 @@ Enumerate ==
         ELSE /\ entries' = (Args \cap Files) \cup UNION {Entries(d) : d \in Args \cap DirNames}
              /\ phase' = "Enumerated"
              /\ UNCHANGED <<sources, diags, okLine, exit>>
-  /\ UNCHANGED <<cmd, args, enc>>
+  /\ UNCHANGED <<cmd, args, enc, verb>>
 
 (* create_project, second half: read + decode (BOM sniffing, UTF-8, then Windows-1252).  The decoded
    text - here: the file's class - does not depend on enc[f]. *)
@@ -74,7 +76,7 @@ ReadDecode ==
             ELSE /\ sources' = entries
                  /\ phase' = "Read"
                  /\ UNCHANGED <<diags, okLine, exit>>
-  /\ UNCHANGED <<cmd, args, enc, entries>>
+  /\ UNCHANGED <<cmd, args, enc, verb, entries>>
 
 Parses(f)    == Decoded(f) \notin {"L", "Y"}
 Tokenizes(f) == Decoded(f) # "L"
@@ -110,7 +112,7 @@ Run ==
             /\ okLine' = (\A f \in sources : Tokenizes(f))
             /\ exit' = (IF \A f \in sources : Tokenizes(f) THEN 0 ELSE 1)
   /\ phase' = "Done"
-  /\ UNCHANGED <<cmd, args, enc, entries, sources>>
+  /\ UNCHANGED <<cmd, args, enc, verb, entries, sources>>
 
 Next == Enumerate \/ ReadDecode \/ Run
 Spec == Init /\ [][Next]_vars
@@ -145,7 +147,7 @@ DependsOnlyOnDenotation == Done => Obs = Expected(cmd, Denotation(args))
 \* two invocations with the same command and the same denotation have the same observation.
 
 ---------------------------------------------------------------------------
-Replay == [R |-> "cli", cmd |-> cmd, args |-> args, enc |-> enc, exit |-> exit, ok |-> okLine,
+Replay == [R |-> "cli", cmd |-> cmd, args |-> args, enc |-> enc, verb |-> verb, exit |-> exit, ok |-> okLine,
            diags |-> {<<d[1], d[2]>> : d \in diags}, den |-> Denotation(args)]
 EmitReplay == (Emit /\ Done) => PrintT(ToJson(Replay))
 =============================================================================
